@@ -604,3 +604,58 @@ Theorem C10_step_shift_lead_reads_n_ahead :
          end.
 Proof. exact shift_lead_reads_ahead. Qed.
 Print Assumptions C10_step_shift_lead_reads_n_ahead.
+
+(* ================================================================== merge-fields, fill-down *)
+From Miller Require Import C10.ProofsMerge.
+
+(* merge-fields -r: per record, every requested accumulator is run over exactly the non-empty values of the fields whose
+   name contains one of the substrings, in record order; those fields are removed unless -k *)
+Theorem C10_merge_fields_r_equals_definition :
+  forall interp keep accs subs base r,
+    verb_merge_fields_one interp keep accs (MFSubs subs) base r
+    = fold_left (fun o e => oput (base ++ "_" :: fst e)%list (run_acc interp (fst (snd e)) (mf_subs_values subs r)) o)
+                (mf_accs accs) (mf_subs_rest keep subs r).
+Proof. exact merge_fields_subs. Qed.
+Print Assumptions C10_merge_fields_r_equals_definition.
+
+(* merge-fields -f: the non-empty values of the listed fields present in the record, in the order of -f (a name listed
+   twice without -k is gone the second time: the statement needs NoDup then, see merge_fields_names_dup_refuted) *)
+Theorem C10_merge_fields_f_equals_definition :
+  forall interp keep accs fs base r, keep = true \/ NoDup fs ->
+    verb_merge_fields_one interp keep accs (MFNames fs) base r
+    = fold_left (fun o e => oput (base ++ "_" :: fst e)%list (run_acc interp (fst (snd e)) (mf_names_values fs r)) o)
+                (mf_accs accs) (mf_names_rest keep fs r).
+Proof. exact merge_fields_names. Qed.
+Print Assumptions C10_merge_fields_f_equals_definition.
+
+(* merge-fields -c: the fields are partitioned by their short name (field name minus the first matching substring), short
+   names in first-appearance order, each short name's accumulators run over exactly its fields' non-empty values *)
+Theorem C10_merge_fields_c_equals_definition :
+  forall interp keep accs subs base r,
+    verb_merge_fields_one interp keep accs (MFCollapse subs) base r
+    = fold_left (fun o sh => fold_left (fun o e => oput (sh ++ "_" :: fst e)%list (run_acc interp (fst (snd e)) (mf_collapse_values subs sh r)) o)
+                                       (mf_accs accs) o)
+                (first_keys (mf_ckey subs) r) (mf_subs_rest keep subs r).
+Proof. exact merge_fields_collapse. Qed.
+Print Assumptions C10_merge_fields_c_equals_definition.
+
+(* fill-down -f [-a | --only-if-blank]: the i-th output is the i-th input with every listed field that is not present
+   (absent; or, without -a, empty) set to its value in the LAST earlier record where it was present, if any *)
+Theorem C10_fill_down_equals_definition :
+  forall oia fs rs, NoDup fs -> verb_fill_down false oia fs rs = spec_fill_down_from oia fs [] rs.
+Proof. exact fill_down_equals_definition. Qed.
+Print Assumptions C10_fill_down_equals_definition.
+
+Theorem C10_fill_down_all_equals_definition :
+  forall oia fs rs, forallb wf_record rs = true -> verb_fill_down true oia fs rs = spec_fill_all_from oia [] rs.
+Proof. exact fill_down_all_equals_definition. Qed.
+Print Assumptions C10_fill_down_all_equals_definition.
+
+Example C10_nonvacuous_merge_fill :
+  NoDup [B "x"; B "y"]
+  /\ forallb wf_record [[(B "x", B "1"); (B "y", B "")]; [(B "y", B "2")]] = true
+  /\ verb_fill_down false false [B "x"; B "y"] [[(B "x", B "1"); (B "y", B "")]; [(B "y", B "2")]; [(B "x", B ""); (B "z", B "3")]]
+     = [[(B "x", OText (B "1")); (B "y", OText [])]; [(B "y", OText (B "2")); (B "x", OText (B "1"))];
+        [(B "x", OText (B "1")); (B "z", OText (B "3")); (B "y", OText (B "2"))]]
+  /\ mf_subs_values [B "in_"] [(B "a_in_x", B "3"); (B "k", B "9"); (B "b_in_y", B ""); (B "c_in_z", B "4")] = [B "3"; B "4"].
+Proof. vm_compute. repeat split; try reflexivity; repeat constructor; cbn; intuition discriminate. Qed.
